@@ -43,6 +43,44 @@ CHECKS = {
             'marks are inserted and recorded by the generator; strip_bonding_descriptors must return exactly the clean '
             'text and exactly the recorded maps. Exhaustive sub-run: every insertion slot x descriptor form for ten small texts.',
             '4/C13', ''),
+    'C02': ('property-based testing: invariant over every resolution step (fragid / graph / mapping / template bijection) on generated strings',
+            'After every resolve() step of generated strings (dedicated-pair molecules, multi-level strings, ambiguous '
+            'fragment sets) the mapping invariants are evaluated: fragid within coarse keys, graph attribute equals '
+            'the fragid members, cover, bijection of mapped nodes with the template (names/elements, bonds, orders, '
+            'annotations), fragname on every member.',
+            '4/C02', 'Templates are taken from cgsmiles\' own fragment reader. '),
+    'C03': ('property-based testing: invariant over output + templates with an independent re-statement of the matching rule and exact descriptor-assignment search',
+            'For generated ambiguous and dedicated fragment sets under both conventions every inter-fragment bond must '
+            'carry a compatible descriptor pair, lie across a base edge, respect the edge order bound (exactly the '
+            'order for dedicated pairs), carry the annotated order, and all bonds together must be explainable by the '
+            'descriptors written on the templates without using one twice.',
+            '4/C03', ''),
+    'C06': ('property-based testing: metamorphic relation n-level vs 2-level vs model, step invariants, three drivers differential',
+            'Multi-level strings built by repeatedly grouping a cut molecule; final result isomorphic to the model and '
+            'to the two-level string; coarse graph of each step is the previous fine graph; C02/C03 invariants at '
+            'every step; resolve() x k, resolve_iter() and resolve_all() give equal dumps.',
+            '4/C06', ''),
+    'C09': ('property-based testing: per-atom valence invariant with an independent valence table on generated all-atom outputs',
+            'Every all-atom result of generated strings (dedicated, multi-level, ambiguous with surplus descriptors, '
+            'explicit hydrogens) is checked atom by atom: hydrogens == smallest fitting usual valence - heavy bond sum; '
+            'hydrogens have one neighbour and inherit fragid/fragname/weight; explicit hydrogens kept.',
+            '4/C09', 'Sampler outputs are checked by C16 with the same invariant. '),
+    'C12': ('property-based testing: numbering invariants, metamorphic permutations / constructors differential, Hypothesis stateful machine over shared libraries, sub-process PYTHONHASHSEED differential',
+            'Numbering clauses on every step; equal canonical dumps for repeated calls, permuted fragment definitions '
+            'and the three constructors; libraries unchanged; RuleBasedStateMachine over shared fragment libraries '
+            '(resolve via any constructor, long-lived resolvers, sampler on shared graphs) with memoised references; '
+            'fresh interpreters under 4-8 hash seeds compared byte for byte.',
+            '4/C12', 'Hash seeds and histories are sampled. '),
+    'C07': ('exhaustive small-scope enumeration (networkx atlas x bond-order assignments x relabelings) + property-based round trip write->read',
+            'Every connected atlas graph up to 5/6 nodes with enumerated bond-order assignments, two relabelings and '
+            'two name patterns, plus random larger graphs, is written and read back; the result must be isomorphic on '
+            'names and orders.',
+            '4/C07', ''),
+    'C14': ('property-based testing with exhaustive arrangement enumeration per record: semantic annotation record -> every positional/keyword rendering -> parsed attributes',
+            'A generated annotation record is rendered in every positional/keyword arrangement at base-graph, '
+            'coarse-fragment and atomistic level; parsed attributes must equal the record with documented defaults and '
+            'types, stay on the coarse node, and appear on every fine copy of the annotated atom.',
+            '4/C14', ''),
 }
 
 NOT_BUILT = {}
